@@ -376,16 +376,24 @@ def Conn.init {σ : Type} (isServer : Bool) (hpR hpW : σ) : Conn σ :=
   { l2 := { isServer := isServer, streams := [], maxId := 0 }, coll := Coll.init,
     rd := FSt.init isServer hpR, wr := FSt.init (!isServer) hpW }
 
-/-- what the inner connection's call returned besides the byte count -/
+/-- what the inner connection's call returned besides the bytes / the byte count: nothing, or an
+error of one of the three kinds the code tells apart.  Any of them may accompany any number of
+bytes (`io.Reader`: "n > 0 bytes and a non-nil error" is a legal result of one call). -/
 inductive IOErr
   | ok
+  | eof                         -- io.EOF (not a net.Error)
   | timeout (tag : String)      -- net.Error with Timeout() = true
-  | fail (tag : String)
+  | fail (tag : String)         -- any other error
 deriving DecidableEq, Repr, Inhabited
 
+/-- One call on the wrapped connection with the result of the inner connection's call.
+`read data err`: the inner `Read` returned `n = data.length` bytes (`data = buf[:n]`, possibly
+empty) *and* `err` (possibly none) in the same call.  `write data n err`: `Write(data)` was
+called and the inner `Write` returned `(n, err)` with `n ≤ data.length` (a short write when
+`n < data.length`). -/
 inductive Call
-  | read (data : Bytes) (err : IOErr)       -- inner Read returned these bytes and this error
-  | write (data : Bytes) (err : IOErr)      -- Write(data) was called; inner Write returned this error
+  | read (data : Bytes) (err : IOErr)
+  | write (data : Bytes) (n : Nat) (err : IOErr)
   | close (err : IOErr)
   | timers                                   -- retryWait elapses: every pending retry timer fires
 deriving DecidableEq, Repr, Inhabited
@@ -421,40 +429,54 @@ def Conn.cancelAll (c : Conn σ) (err : Err) : Conn σ :=
   let r := ConfModel.H2.cancelAll c.l2 err
   { c with l2 := r.1, coll := applyOps c.coll r.2 }
 
-/-- one call on the wrapped connection; `decR`/`decW` are the frame decoders of the two directions -/
+/-- One call on the wrapped connection; `decR`/`decW` are the frame decoders of the two directions.
+`Read`: `n, err = c.Conn.Read(data); c.readTracer.trace(data[:n])` comes first, whatever `err`
+is — the tracer is fed exactly the bytes the caller receives; then `err != nil`: a timeout is
+ignored, anything else (`io.EOF` included) is `cancelAll(err)`.
+`Write`: `c.writeTracer.trace(data)` comes first, before the inner `Write` — the whole argument,
+whatever `(n, err)` the inner connection then returns; then `err != nil` (timeouts included) is
+`cancelAll(err)`; a short count without an error changes nothing. -/
 def Conn.step (decR decW : Bytes → σ → Option (Frame × σ)) (c : Conn σ) : Call → Conn σ
   | .read data err =>
     let t := frameTrace decR c.rd data
     let r := handleFrames c.l2 c.rd.isReq t.2
     let c1 : Conn σ := { c with rd := t.1, l2 := r.1, coll := applyOps c.coll r.2 }
     match err with
+    | .ok => c1
+    | .timeout _ => c1
+    | .eof => c1.cancelAll (.io "EOF")
     | .fail tag => c1.cancelAll (.io tag)
-    | _ => c1
-  | .write data err =>
+  | .write data _ err =>
     let t := frameTrace decW c.wr data
     let r := handleFrames c.l2 c.wr.isReq t.2
     let c1 : Conn σ := { c with wr := t.1, l2 := r.1, coll := applyOps c.coll r.2 }
     match err with
     | .ok => c1
+    | .eof => c1.cancelAll (.io "EOF")
     | .timeout tag => c1.cancelAll (.io tag)
     | .fail tag => c1.cancelAll (.io tag)
   | .close err =>
     match err with
     | .ok => c.cancelAll (.closed "")
+    | .eof => c.cancelAll (.closed "EOF")
     | .timeout tag => c.cancelAll (.closed tag)
     | .fail tag => c.cancelAll (.closed tag)
   | .timers => { c with coll := c.coll.run (c.coll.waiting.map (fun p => COp.timesUp p.1)) }
 
 /-- the connection's end as the tracer sees it after a call of the inner connection -/
 def lostAfterRead : IOErr → List WEv
+  | .ok => []
+  | .timeout _ => []
+  | .eof => [.lost (.io "EOF")]
   | .fail tag => [.lost (.io tag)]
-  | _ => []
 def lostAfterWrite : IOErr → List WEv
   | .ok => []
+  | .eof => [.lost (.io "EOF")]
   | .timeout tag => [.lost (.io tag)]
   | .fail tag => [.lost (.io tag)]
 def closeErr : IOErr → Err
   | .ok => .closed ""
+  | .eof => .closed "EOF"
   | .timeout tag => .closed tag
   | .fail tag => .closed tag
 
@@ -462,7 +484,7 @@ def closeErr : IOErr → Err
 of this call (in order, tagged with the direction), then possibly the loss of the connection -/
 def Conn.callEvents (decR decW : Bytes → σ → Option (Frame × σ)) (c : Conn σ) : Call → List WEv
   | .read data err => (frameTrace decR c.rd data).2.map (WEv.frame c.rd.isReq) ++ lostAfterRead err
-  | .write data err => (frameTrace decW c.wr data).2.map (WEv.frame c.wr.isReq) ++ lostAfterWrite err
+  | .write data _ err => (frameTrace decW c.wr data).2.map (WEv.frame c.wr.isReq) ++ lostAfterWrite err
   | .close err => [.lost (closeErr err)]
   | .timers => [.timers]
 
@@ -478,5 +500,19 @@ def Conn.run (decR decW : Bytes → σ → Option (Frame × σ)) (c : Conn σ) (
 /-- What the caller of `Read`/`Write`/`Close` gets back: the inner connection's result,
 unchanged (the tracer only looks at `data[:n]`). -/
 def Conn.result (inner : Nat × IOErr × Bytes) : Nat × IOErr × Bytes := inner
+
+/-- the inner connection's result of a call: (count, error, bytes placed in the caller's buffer) -/
+def Call.inner : Call → Nat × IOErr × Bytes
+  | .read data err => (data.length, err, data)
+  | .write _ n err => (n, err, [])
+  | .close err => (0, err, [])
+  | .timers => (0, .ok, [])
+
+/-- the bytes a call hands to the frame tracer of its direction: for `Read` the `n` bytes the
+inner connection delivered, for `Write` the whole argument -/
+def Call.traced : Call → Bytes
+  | .read data _ => data
+  | .write data _ _ => data
+  | _ => []
 
 end ConfModel.H2
